@@ -182,6 +182,18 @@ def facts_of(fn: ast.AST, source: str) -> dict:
                     and filtered(gtest.left.args[0], source) is not None:
                 cond_empty = filtered(gtest.left.args[0], source)
     # --- simple reducers
+    # (_extreme(F, min) / _extreme(F, max): the builtin applied to F, with dates widened to midnight when F mixes dates and datetimes)
+    if _call(inner, "_extreme", 2) and isinstance(inner.args[1], ast.Name) and inner.args[1].id in ("min", "max"):
+        red = inner.args[1].id
+        fc = filtered(inner.args[0], source)
+        if fc is None:
+            return out
+        out.update(kind=red, filter=fc)
+        if cond_empty is not None:
+            out["empty"] = None if cond_empty == fc else f"guard-on-{cond_empty}"
+        else:
+            out["empty"] = "raises"
+        return out
     for red in ("sum", "min", "max", "any", "all"):
         if _call(inner, red):
             arg = inner.args[0]
